@@ -69,7 +69,8 @@ func VerifC04_Operators() {
 	// (the 401-digit operand 1e400 is left to the function harnesses: powers and
 	// products of it are cheap natively but exhaust the executor's memory when
 	// math/big runs word by word on boxed values, 16 workers at a time)
-	ka := zzverif.Choice("arg-kind", functions.VerifNumArgKinds-1)
+	ka := zzverif.Choice("arg-kind", functions.VerifNumArgKinds)
+	zzverif.Assume(ka != 21)
 	kinds := []int{0, 3, 5, 6, 8, 16, 19, 20}
 	kb := kinds[zzverif.Choice("arg-kind", len(kinds))]
 	zzverif.Assume(!(functions.VerifIsSymbolicKind(ka) && functions.VerifIsSymbolicKind(kb)))
